@@ -655,7 +655,7 @@ func c16Bars(c *mc.Ctx) {
 // repetitions each. A race report ends the worker process (GORACE=halt_on_error) and is reported
 // as class crash:free-running:data-race.
 func c16Race(c *mc.Ctx) {
-	pipeline := c.Choose(6)
+	pipeline := c.Choose(7)
 	reps := 6
 	if c.Thorough() {
 		reps = 40
@@ -676,6 +676,8 @@ func c16Race(c *mc.Ctx) {
 		c16Diff(c)
 	case 5:
 		c16MergeWith(c, true, false)
+	case 6:
+		c16Progress(c)
 	}
 }
 
@@ -689,6 +691,10 @@ func c16Progress(c *mc.Ctx) {
 	joined := c.Choose(2) == 1
 	ticks := 1 + c.Choose(2)
 	items := c.Choose(3)
+	if c16free {
+		// free-running race pass: real 1 ms ticks must fall among the producer's updates
+		items = 60000 * (1 + items)
+	}
 	c.Shard()
 	desc := fmt.Sprintf("progress tracker (joined=%v), %d tick(s), producer feeding %d work item(s), consumer leaves its loop when the work channel closes and calls Stop", joined, ticks, items)
 	c.Logf("%s", desc)
